@@ -714,7 +714,7 @@ impl MerkleTree {
     @*/
 
     /*@ fn src/tree/merkle_tree.rs MerkleTree::byte_offset_in_changeset
-    tags: C03 C01 C09
+    tags: C03 C01 C09 C04
     result: r
     requires:
         old(self).t_wf(), old(self).roots_wf(), old(self).unflushed_small(), infos_small(infos), infos_readable(infos), hypercore_index < 0x100_0000_0000,
